@@ -163,7 +163,7 @@ def make_scenarios(ctx, groups, n, first_id=0):
         limit = 0 if M == 0 else M * pw - rng.randrange(pw)
         scs.append({"id": first_id + i, "chain": chain, "pre": pre, "procs": procs, "timeout_ms": rng.choice([10, 20, 30]),
                     "limit": limit, "M": M, "neg": neg, "wait_ms": WAIT_MS, "streams": streams,
-                    "plugin": plugin, "templates": templates})
+                    "plugin": plugin, "templates": templates, "hold": rng.choice([0, 2, 4, 8])})
     return scs
 
 
@@ -204,6 +204,11 @@ def directed_scenarios(first_id):
         sts = [stream(q, src=n + 1, sel=True, delay=120 * n) for n, q in enumerate(seqs)]
         out.append({"id": first_id + 50 + j, "chain": chain, "pre": "sel", "procs": procs, "timeout_ms": 20, "limit": 0, "M": 0,
                     "neg": False, "wait_ms": WAIT_MS, "streams": sts, "directed": True})
+    # several runs in a row on one processor with an output that reads the events late (M_FlushCopiesBuffer)
+    for j, (plugin, seq) in enumerate([("join", ["S1", "C1", "S1", "S1", "O"]), ("join_template", ["S1", "C1", "S1", "S1", "O"])]):
+        out.append({"id": first_id + 80 + j, "chain": "join", "pre": "none", "procs": 1, "timeout_ms": 20, "limit": 0, "M": 0,
+                    "neg": False, "wait_ms": WAIT_MS, "plugin": plugin, "templates": ["go_panic"], "hold": 8, "directed": True,
+                    "streams": [stream(seq, gate=True, style="re" if plugin == "join" else "go_panic")]})
     for j, (chain, pre, procs, seq) in enumerate([
             ("discard+join", "discard", 1, ["S1", "C1", "D"]),        # D5: run held, last event discarded by action 0
             ("discard+join", "discard", 2, ["S1", "D"]),
@@ -293,6 +298,11 @@ def analyse_stream(sc, st, res, table):
     to_mis = sorted(set(to_all) - set(to_join))
     stats["to_observed"] = len(to_all)
     obs = [{"k": o["k"], "has_log": o["has_log"], "is_str": o["is_str"], "log": o["log"]} for o in out]
+    # the output looks at an event a few events after it arrived: the text must still be what it was at arrival
+    for o in out:
+        if o["has_log"] and o["log"] != o.get("log_early", o["log"]):
+            recs.append(dict(base, kind="flushed_text_changed", as_modelled=False, event=o["k"], early=o["log_early"], late=o["log"]))
+            return recs, stats
     # foreign text in a joined field = events of different streams or sources merged
     own = {v[1] for v in vals if v[1] is not None}
     cross = False
@@ -562,7 +572,8 @@ def run(ctx):
                       overrides={"MaxLen1": "4", "MaxLenPre": "3"} if quick else None)
     # spec mutant: the selector of a busy action is evaluated -> TLC must reject it (its counterexamples are the directed
     # selector scenarios of the pipeline-level runs)
-    for cfgname, mech in (("Join_mutsel.cfg", "M_BusyIgnoresSelector"), ("Join_mutprop.cfg", "M_PropagateResetsBusyFirst")):
+    for cfgname, mech in (("Join_mutsel.cfg", "M_BusyIgnoresSelector"), ("Join_mutprop.cfg", "M_PropagateResetsBusyFirst"),
+                          ("Join_mutalias.cfg", "M_FlushCopiesBuffer"), ("Join_mutind.cfg", "M_StartCheckIsTheTemplates")):
         rm = ctx.tlc("Join", cfgname, timeout=900, deadlock=False, name="Join/mutant %s off" % mech)
         if rm.violated != "StatementOK":
             raise vlib.Infra("spec mutant %s=FALSE was not rejected by StatementOK: %s" % (mech, rm.violated))
@@ -599,7 +610,8 @@ def run(ctx):
 
     # ---- 2. plugin-level replay (all exported cases, both tiers)
     j1 = [c for c in jcases if c["nt"] == 1 and c["pre"] == "none"]
-    jt = [c for c in jcases if c["pre"] == "none"]
+    jt = [c for c in jcases if c["pre"] == "none" or
+          (c["pre"] == "ind" and not any(c["neg"][t] and ("S%di" % (t + 1)) in c["seq"] for t in range(c["nt"])))]
     r1 = replay_plugin(ctx, bins["plugin/action/join"], "^TestVerifC15Join$", j1, "join")
     r2 = replay_plugin(ctx, bins["plugin/action/join_template"], "^TestVerifC15JoinTemplate$", jt, "jt")
     r3 = replay_plugin(ctx, bins["plugin/input/k8s"], "^TestVerifC15K8s$", kcases, "k8s")
